@@ -308,37 +308,68 @@ theorem backpressure_progress_full_false : ¬ C18_backpressure_progress_full := 
   have := h 1 2 _ _ s (by decide) (by decide) hs hf
   rw [hn] at this; cases this
 
-/-- the provable part: when the peer issues its requests one after the other (each request frame
-directly behind its id frame) the connection never stalls — any number of requests, any limit
-≥ 1, any interleaving of the server's threads.  (The harness issues the requests of one peer this
-way in its `inflight` scenarios and concurrently in `holstall`.) -/
-theorem backpressure_progress_partial (limit n : Nat) (hl : 0 < limit) (tr : List SeqStep) (s : SeqHOL)
+/-- the provable part, a statement about `HOL` itself: when the peer issues its requests one after
+the other (the wire is `seqWire n`: each request frame directly behind its id frame) the
+connection never stalls — any number of requests, any limit ≥ 1, any interleaving of the server's
+threads.  Proved through the simulation below and the progress of `SeqHOL`.  (The harness issues
+the requests of one peer this way in its `inflight`/`rejects` scenarios and concurrently in
+`holstall`; `hol_stall_witness` is the negation for concurrent issue.) -/
+theorem backpressure_progress_partial (limit n : Nat) (hl : 0 < limit) (tr : List HOLStep) (s : HOL)
+    (h : holSys.run (HOL.init limit (seqWire n) n) tr = some s) (hf : s.final = false) :
+    s.canStep = true := by
+  obtain ⟨q, hr⟩ := holRel_reach limit n tr s h
+  have hlim : q.limit = limit := by
+    obtain ⟨_, h1, _⟩ := hr
+    have hinv : s.limit = limit :=
+      Sys.run_inv holSys (fun s => s.limit = limit) (by
+        intro s a s' hi hs
+        cases a <;> simp only [holSys, HOL.step] at hs
+        all_goals (repeat' split at hs)
+        all_goals first
+          | contradiction
+          | (simp only [Option.some.injEq] at hs; subst hs; exact hi)) tr _ s rfl h
+    omega
+  have hqf : q.final = false := by
+    cases hq : q.final
+    · rfl
+    · have := hol_final_of_seq n s q hr hq; rw [this] at hf; cases hf
+  have hsem := hr.choose_spec.2.2.2.2.2.2.1
+  exact hol_enabled_of_seq n s q hr (SeqHOL.progress_of_inv q (by omega) hsem hqf)
+
+/-- the correspondence that carries it: `SeqHOL` (counters) is the sequential-issue restriction of
+`HOL`.  Forward simulation — every `HOL` step from related states is a `SeqHOL` step to related
+states — and every reachable `HOL` state on the sequential wire is related to some `SeqHOL` state;
+conversely whatever `SeqHOL` can do the related `HOL` state can do, and only final `HOL` states are
+related to final `SeqHOL` states. -/
+theorem hol_seq_simulation (n : Nat) (h h' : HOL) (q : SeqHOL) (a : HOLStep) (hr : HolRel n h q)
+    (hs : h.step a = some h') : ∃ b q', q.step b = some q' ∧ HolRel n h' q' :=
+  hol_sim n h h' q a hr hs
+
+theorem hol_seq_related (limit n : Nat) (tr : List HOLStep) (s : HOL)
+    (h : holSys.run (HOL.init limit (seqWire n) n) tr = some s) : ∃ q, HolRel n s q :=
+  holRel_reach limit n tr s h
+
+theorem hol_seq_enabled (n : Nat) (h : HOL) (q : SeqHOL) (hr : HolRel n h q) :
+    (q.canStep = true → h.canStep = true) ∧ (q.final = true → h.final = true) :=
+  ⟨hol_enabled_of_seq n h q hr, hol_final_of_seq n h q hr⟩
+
+/-- progress of the counter system on its own (all runs of `SeqHOL`) -/
+theorem seq_progress (limit n : Nat) (hl : 0 < limit) (tr : List SeqStep) (s : SeqHOL)
     (h : seqHolSys.run { limit := limit, todo := n } tr = some s) (hf : s.final = false) :
     s.canStep = true := by
   have key : SeqHOL.Inv s ∧ s.limit = limit :=
     Sys.run_inv seqHolSys (fun s => SeqHOL.Inv s ∧ s.limit = limit)
       (fun s a s' hi hs => ⟨SeqHOL.inv_step s a s' hi.1 hs, (SeqHOL.step_limit s a s' hs).trans hi.2⟩)
       tr _ s ⟨⟨by simp⟩, rfl⟩ h
-  obtain ⟨⟨hsem⟩, hlim⟩ := key
-  simp only [SeqHOL.final, Bool.and_eq_false_iff, decide_eq_false_iff_not] at hf
-  simp only [SeqHOL.canStep, List.any_cons, List.any_nil, Bool.or_false, Bool.or_eq_true,
-    Option.isSome_iff_ne_none, ne_eq]
-  cases hc : s.cur <;> simp [hc, SeqHOL.step] at hsem hf ⊢
-  · -- nothing in transit: deliver the next id, or a running handler finishes
-    by_cases ht : 0 < s.todo
-    · left; omega
-    · right; omega
-  all_goals
-    by_cases hfree : s.sem < s.limit
-    · simp [hfree]
-    · right; omega
+  exact SeqHOL.progress_of_inv s (by omega) key.1.sem hf
 
 -- non-vacuity: the sequential system does run to completion with requests waiting for the slot
 example : ∃ s, seqHolSys.run { limit := 1, todo := 2 }
     [.deliverId, .acceptID, .take, .deliverReq, .readReq, .deliverId, .acceptID, .deliverReq,
      .finish, .take, .readReq, .finish] = some s ∧ s.final = true ∧ s.doneN = 2 := ⟨_, rfl, by decide⟩
 -- and the general system completes on the sequential wire where it wedged on the interleaved one
-example : ∃ s, holSys.run (HOL.init 1 [.id 0, .req 0, .id 1, .req 1] 2)
+example : seqWire 2 = [.id 0, .req 0, .id 1, .req 1] := rfl
+example : ∃ s, holSys.run (HOL.init 1 (seqWire 2) 2)
     [.deliver, .acceptID 0, .take 0, .deliver, .readReq 0, .deliver, .acceptID 1, .deliver,
      .finish 0, .take 1, .readReq 1, .finish 1] = some s ∧ s.final = true := ⟨_, rfl, by decide⟩
 
@@ -525,8 +556,9 @@ theorem late_peer_repaired :
 the real code before the repair (37 of 60 runs of `Connect` racing `Close`) -/
 theorem leak_witness :
     ∃ s, (tdSys false).run {}
-      [.connStart, .closeL, .closeStop, .connAdd, .peerAdd true, .acceptExit, .runRecv, .runCloseL,
-       .runSweep, .bgExit, .runRecv, .bgExit, .runRecv, .runPeersDone, .runReturn, .closeRet] = some s ∧
+      [.connStart, .closeL, .closeStop, .connAdd, .peerAdd true, .peerRemove, .acceptExit, .runRecv,
+       .runCloseL, .runSweep, .bgExit, .runRecv, .bgExit, .runRecv, .runPeersDone, .runReturn,
+       .closeRet] = some s ∧
       s.close = .returned ∧ s.leaked = 1 :=
   ⟨_, rfl, by decide⟩
 
